@@ -395,7 +395,9 @@ def opSupResolve (j : Json) : R Json := do
   let outs := srcs.map (fun (X, r) =>
     Json.mkObj [("assign", jList (jOpt jNat) (supAssign spec X r)),
                 ("result", jOpt (fun N => jList jNat (sortNat N)) (resolve spec X r))])
-  return Json.mkObj [("init_ok", Json.bool (initOK spec)), ("results", Json.arr outs.toArray)]
+  let srcNodes ← fieldD j "src_nodes" (optOf (listOf nat)) none
+  let wf := match srcNodes with | some ns => mapsWF spec ns | none => true
+  return Json.mkObj [("init_ok", Json.bool (initOK spec && wf)), ("maps_wf", Json.bool wf), ("results", Json.arr outs.toArray)]
 
 /-! ### fast encoder -/
 
